@@ -258,4 +258,38 @@ theorem copyFlat_fresh (h : Heap) (o : Nat) :
          | (rcases ha with ha | ha <;> subst ha <;> simp [upd])
          | skip)
 
+/-- `copy()` of a well-formed object establishes the hypotheses of the independence theorems: source and copy are
+    separated, both are well-formed, and the source is observably unchanged -/
+theorem copyFlat_sep (h : Heap) (o : Nat) (wo : WF h o) :
+    SameObs h (copyFlat h o).1 o ∧ Sep (copyFlat h o).1 o (copyFlat h o).2 ∧
+    WF (copyFlat h o).1 o ∧ WF (copyFlat h o).1 (copyFlat h o).2 := by
+  obtain ⟨w1, w2⟩ := wo
+  obtain ⟨c1, c2, c3⟩ := copyFlat_fresh h o
+  have hnext : h.next < (copyFlat h o).1.next ∧ (copyFlat h o).2 < (copyFlat h o).1.next ∧
+      (∀ a, Owns (copyFlat h o).1 (copyFlat h o).2 a →
+          a < (copyFlat h o).1.next ∧ ((copyFlat h o).1.arr a).buf < (copyFlat h o).1.next) := by
+    cases ev : (h.obj o).vals <;> cases em : (h.obj o).mask <;>
+      simp only [copyFlat, copyArrRef, ev, em, Owns] <;>
+      refine ⟨by omega, by omega, ?_⟩ <;>
+      intro a ha <;> simp [upd] at ha <;>
+      first
+        | (subst ha; simp [upd]; omega)
+        | (rcases ha with ha | ha <;> subst ha <;> simp [upd] <;> omega)
+        | skip
+  obtain ⟨n1, n2, n3⟩ := hnext
+  have objo : (copyFlat h o).1.obj o = h.obj o := (c3 o w1).2.2.2
+  have owno : ∀ a, Owns (copyFlat h o).1 o a ↔ Owns h o a := by intro a; unfold Owns; rw [objo]
+  refine ⟨⟨objo, fun a ha => ?_⟩, ⟨by omega, ?_⟩, ⟨by omega, ?_⟩, ⟨n2, n3⟩⟩
+  · obtain ⟨a1, a2⟩ := w2 a ha
+    exact ⟨(c3 a a1).2.1, (c3 _ a2).1⟩
+  · intro a b ha hb
+    obtain ⟨a1, a2⟩ := w2 a ((owno a).1 ha)
+    obtain ⟨b1, b2, _⟩ := c2 b hb
+    rw [(c3 a a1).2.1]
+    exact ⟨by omega, by omega⟩
+  · intro a ha
+    obtain ⟨a1, a2⟩ := w2 a ((owno a).1 ha)
+    rw [(c3 a a1).2.1]
+    exact ⟨by omega, by omega⟩
+
 end PMV.Heap
